@@ -55,11 +55,13 @@ theorem new_history_refines (cap : Nat) (hc : 0 < cap) (m0 m1 : Mem) (r0 : Rbuf)
     (r0.run ops m1).2.2 = m1 := by
   obtain ⟨hinv, habs, _⟩ := Rbuf.new_ok cap m0 r0 m1 hc hnew
   have hcap : r0.cap = cap := by
-    unfold Rbuf.new at hnew; dsimp only at hnew
-    split at hnew; · simp at hnew
-    split at hnew; · simp at hnew
-    simp only [Prod.mk.injEq, Option.some.injEq, true_and] at hnew
-    rw [← hnew.1]
+    unfold Rbuf.new Rbuf.newT at hnew; simp only [Mem.allocT_conf, Mem.freeT_conf] at hnew
+    cases h1 : m0.alloc.1
+    · simp [h1] at hnew
+    · cases h2 : m0.alloc.2.alloc.1
+      · simp [h1, h2] at hnew
+      · simp only [h1, h2, Bool.not_true, Bool.false_eq_true, if_false, Prod.mk.injEq, Option.some.injEq, true_and] at hnew
+        rw [← hnew.1]
   have := history_refines ops r0 m1 hinv
   rw [habs, hcap] at this
   exact ⟨this.1, this.2.1, this.2.2.2⟩
@@ -114,7 +116,7 @@ theorem new_destroy_ledger (cap : Nat) (m : Mem) :
     ((Rbuf.new cap m).1 = .errAlloc → (Rbuf.new cap m).2.1 = none ∧ (Rbuf.new cap m).2.2.live = m.live ∧ (Rbuf.new cap m).2.2.fault = m.fault) ∧
     (∀ r, (Rbuf.new cap m).2.1 = some r → (Rbuf.new cap m).2.2.live = m.live + 2 ∧
         (r.destroy (Rbuf.new cap m).2.2).live = m.live ∧ (r.destroy (Rbuf.new cap m).2.2).fault = m.fault) := by
-  unfold Rbuf.new; dsimp only
+  unfold Rbuf.new Rbuf.newT; dsimp only [Mem.allocT, Mem.freeT]
   cases h1 : m.alloc.1 <;> simp only [Bool.not_false, Bool.not_true, if_true]
   · have := Mem.alloc_fst_false m h1
     simp [this]
@@ -123,9 +125,9 @@ theorem new_destroy_ledger (cap : Nat) (m : Mem) :
     · have e2 := Mem.alloc_fst_false m.alloc.2 h2
       simp [Mem.free, e1, e2]
     · have e2 := Mem.alloc_fst_true m.alloc.2 h2
-      simp [Rbuf.destroy, Mem.free, e1, e2]
+      simp [Rbuf.destroy, Mem.freeT, Mem.free, e1, e2]
 
 /-! ## Non-vacuity: a wrapped, exactly full buffer satisfies the invariant -/
-example : (Rbuf.mk 3 3 1 1 [8, 6, 7]).Inv ∧ (Rbuf.mk 3 3 1 1 [8, 6, 7]).abs = [6, 7, 8] := by decide
+example : (Rbuf.mk 3 3 1 1 [8, 6, 7] .conf).Inv ∧ (Rbuf.mk 3 3 1 1 [8, 6, 7] .conf).abs = [6, 7, 8] := by decide
 
 end CC.Properties.C19
